@@ -447,6 +447,12 @@ func runC20(c *Ctx) *Replay {
 				sc.RFault = &simnet.ReadFault{At: k, Err: simnet.ErrorNames[c.R.Intn(4)], Transient: true, Partial: c.R.Bool()}
 				fk = "transient"
 			}
+			if (k+variant)%3 == 0 {
+				// the reader goes through NewErrorReader again before every read, as it does
+				// whenever a generated decoder hands it to the decoder of a nested record
+				sc.Extra = map[string]string{"rewrap": "1"}
+				c.Count("rewrapped_streams", 1)
+			}
 			viol := execPrims(c.N, &sc)
 			c.Count("evaluations", 1)
 			c.Count("fault:read-"+fk, 1)
@@ -752,6 +758,9 @@ func execPrims(n *Node, sc *Scenario) *Violation {
 		}
 		w := primWidth(p, sc.Values[i])
 		var got val.Value
+		if sc.Extra["rewrap"] == "1" {
+			er = iohelp.NewErrorReader(er)
+		}
 		cr := safeCall(1<<20, 1<<20, func() { got = readStream(er, p) })
 		if cr.Panicked {
 			class := "panic"
